@@ -1,7 +1,7 @@
 SPECIFICATION Spec
 CONSTANTS
   Arrays = {"profile", "profile_error", "data_profile"}
-  LazyOnly = {"data_profile", "ee", "ree"}
+  LazyOnly = {"data_profile", "data_radius", "ee", "ree"}
   ZeroMethods = {}
   Variant = "scaled_first_read"
   MaxDepth = 4
